@@ -245,8 +245,8 @@ def check_glide(res, facts, prop):
         response_lemma(res)
     res.floor('set_time_outcomes', n, 8)
     res.floor('set_time_honoured', n_honoured, 4)
-    if prop == 'C13':
-        check_process(res, facts, gl, tmpl, ctx0)
+    # C13: the recurrence itself; C14: premise of the response lemma
+    check_process(res, facts, gl, tmpl, ctx0)
 
 
 def response_lemma(res):
